@@ -11,7 +11,7 @@ THEOREMS = [(M_, "NQ.C15." + n) for n in [
     "return_msg_roundtrip", "every_fixed_class_dispatched", "subroutine_msg_roundtrip",
     "array_msg_roundtrip_generic", "array_msg_roundtrip", "unknown_type_rejected", "short_buffer_rejected",
     "observe_id", "serialize_depends_on_current_values", "roundtrip_after_update", "fixed_roundtrip_after_update",
-    "decode_unaffected_by_edits",
+    "decode_unaffected_by_edits", "msg_layouts_pinned", "pinned_host_msg_roundtrip",
     "layouts_wf", "tables_wf", "probes_match"]]
 TRANSLATORS = ["msg_layouts", "instr_table"]
 LEVEL_TEXT = ('Lean theorems: (1) struct_roundtrip — for ANY struct layout with disjoint in-size leaf fields '
@@ -63,7 +63,9 @@ def run(ctx):
                 "in-place item assignment/append/pop/insert/del on array values), checked against its current "
                 "field values; decode-side histories: decode, edit decoded objects in place, decode other / the same "
                 "bytes / empty arrays again, host- and return-direction messages interleaved (incl. equal type bytes in "
-                "both directions), compare with the reference decode, no shared mutable parts; "
+                "both directions), from bytes / bytearray / memoryview inputs whose buffer is afterwards overwritten or "
+                "reused for the next message, compare with the reference decode, no shared mutable parts; field "
+                "values span the PINNED widths of Model/MsgSpec.lean; "
                 "malformed: every truncation of valid messages, wrong type bytes, bad OptionalInt tags, "
                 "negative / too large lengths, random bytes. Non-trivial = a message with some non-zero field "
                 "or a non-empty array / malformed input; distinct by the message JSON / byte string")
@@ -227,13 +229,13 @@ def run(ctx):
             a, b = rng.choice(first[tagb]), rng.choice(second[tagb])
             dh.append(H.run_decode_history(dpool, rng, 0, script=[a, b, a, b]))
     dh += [H.run_decode_history(dpool, rng, rng.randrange(3, 10)) for _ in range(n_dh)]
-    reqs = [{"op": "msg.hist", "m": mj, "us": us} for steps, problems, live in dh for (_, mj, us, _) in live]
+    reqs = [{"op": "msg.hist", "m": mj, "us": us} for steps, problems, live in dh for (_, mj, us, _, _) in live]
     outs = iter(ctx.driver.batch(reqs))
     for steps, problems, live in dh:
         res.evaluations += 1
         res.count("decode-history")
         res.nontrivial.add(("dhist", json.dumps(steps, sort_keys=True)[:3000]))
-        for k, (direction, mj, us, obj) in enumerate(live):
+        for k, (direction, mj, us, obj, _buf) in enumerate(live):
             mh = next(outs)
             cur = H.msg_to_json(obj)
             if mh.get("m") != cur:
